@@ -13,12 +13,15 @@ import struct
 
 from ..prng import Rng
 from ..seams import F, P, T, ScriptExecutionError, HarnessError, reset_world
+from ..seams import LIB_ERRORS
 from ..oracle import sha256
 
 PID = 'C20'
-ISOLATE = False
+ISOLATE = True      # one forked process per run: nothing a run does to process-global
+                    # state can reach another run, so every run replays on its own
 RUNS = {'quick': 2500, 'thorough': 40000}
 STEP_KEYS = ['steps']
+BATCH = 1           # runs per forked process (see core.execute_seq)
 CODES = list(range(92, 256))
 COMPONENTS = {
     'real': ['NOP / nopcodes table', 'run_tape fallback', 'add_soft_fork', 'add_opcode',
@@ -118,11 +121,11 @@ class Node:
     def kill(self):
         try:
             self.w.close()
-        except Exception:
+        except LIB_ERRORS:
             pass
         try:
             self.r.close()
-        except Exception:
+        except LIB_ERRORS:
             pass
         try:
             os.kill(self.pid, 9)
